@@ -2,8 +2,8 @@ package exec
 
 import (
 	"go/token"
-	"path/filepath"
 	"go/types"
+	"path/filepath"
 	"sync"
 
 	"golang.org/x/tools/go/ssa"
